@@ -2791,8 +2791,13 @@ impl BytecodeVM {
                 let name = self
                     .get_string_constant(name)
                     .ok_or_else(|| JsError::internal_error("Invalid variable name constant"))?;
-                // Try to get the variable, return undefined if not found
-                let value = interp.env_get(&name).unwrap_or(JsValue::Undefined);
+                // `typeof` of an unresolvable reference sees undefined; a binding in its
+                // temporal dead zone (or a failing import binding) still throws
+                let value = match interp.env_get(&name) {
+                    Ok(value) => value,
+                    Err(_) if !interp.env_has_binding(&name) => JsValue::Undefined,
+                    Err(e) => return Err(e),
+                };
                 self.set_reg(dst, value);
                 Ok(OpResult::Continue)
             }
